@@ -26,6 +26,11 @@ META = {
         "design_ref": "§5 C13", "note": TB + "modelled not verified: core's slice impls and element formatting (validated against the real slice on every run).",
         "technique": "Lean 4 equational proofs over regenerated impl bodies (terms over slice operations) + induction for derived laws + operator/hasher/format correspondence",
     },
+    "C19": {
+        "text": "const_default_all: for every N the array built by the ConstDefault struct literals (regenerated: which declared field of the even node, the odd node and the wrapper gets which initialiser), laid out in declaration order and read through the slice view, is exactly N copies of the element default - by induction over the binary digits of N from structMem_ok (any literal that gives every declared field its own type's default holds k*children + element-fields copies), so no slot is skipped or counted twice for any storage shape; field order and names are not pinned. const_default_eq_default via C08's generate spec. zeroize_all / zeroize_each / zeroize_idempotent: every element of the whole mutable slice is replaced by the element's own zeroized value, for any element zeroize function. Correspondence: all N in 0..=64 and boundary lengths to 1024, five element types with distinguishable zero/default values, compile-time and run-time evaluation.",
+        "design_ref": "§5 C19", "note": TB + "modelled not verified: zeroize's IterMut impl, const-default's primitive impls, const evaluation.",
+        "technique": "Lean 4 induction over the binary storage shape on regenerated struct-literal initialisers + element-wise correspondence",
+    },
     "C17": {
         "text": "serialize_shape (a tuple of declared length N with exactly the N elements in order, no extra framing); ok_iff / no_partial: visit_seq returns Ok exactly when the source delivers N elements and then no surplus (an up-front hint != N rejects before any read; short, long and failing sources are errors) and an Ok array is always the N delivered elements; roundtrip; read_ledger: on every path each element read so far is either in the returned array or dropped exactly once, nothing uninitialised is dropped (by the fill-loop ledger of C04/C07 instantiated with the scripted source). Guards (hint comparison, position == N, probe condition, finish-after-probe order) are regenerated from src/impl_serde.rs. Correspondence: scripted SeqAccess sources with event order, plus real serde_json, serde_json::Value and bincode inputs of every length around N with malformed elements.",
         "design_ref": "§5 C17", "note": TB + "modelled not verified: serde data-format crates; SeqAccess contract.",
